@@ -26,3 +26,5 @@ pub mod c11_rms;
 pub mod c11_nostd;
 #[cfg(all(kani, feature = "c17"))]
 pub mod c17_osc;
+#[cfg(all(kani, feature = "c19"))]
+pub mod c19_envelope;
